@@ -429,4 +429,76 @@ Proof.
   - apply Hgood.
 Qed.
 
+(* LENGTH TOKEN DAMAGE where only the checksum can catch it: every column uses the bulk custom
+   codec (its Decode copies whatever it received, so no column cross-checks the batch length).
+   The bytes of the length token of batch k are replaced by those of another non-negative
+   length n' (same gob state afterwards); the rest of the batch, its checksum token included,
+   is intact.  The checksum covers the length token ([bX] starts with it), so if the two
+   checksums differ the reader delivers the batches before k and then an integrity error ... *)
+Theorem length_damage_bulk_reads st0 s0 pre f n' Q dests :
+  let wk := fold_left WRITE pre (w_init St Sess st0 s0) in
+  let L := fst (enc_tok (wst wk) (TLen (Z.of_nat (flen f)))) in
+  let L' := fst (enc_tok (wst wk) (TLen (Z.of_nat n'))) in
+  let st1 := snd (enc_tok (wst wk) (TLen (Z.of_nat (flen f)))) in
+  let C := bytes_of st1 (cols_toks Sess cenc (wsess wk) sch f) in
+  Forall (fun k => k = KCodecBulk) sch ->
+  Forall (wf_frame sch) pre -> wf_frame sch f -> Forall (wf_frame sch) dests ->
+  snd (enc_tok (wst wk) (TLen (Z.of_nat n'))) = st1 ->
+  crc_update 0 (L' ++ C) <> crc_update 0 (L ++ C) ->
+  READS (r_init St Sess (wout wk ++ L' ++ C ++ bY wk f ++ Q) st0 s0) dests
+  = spec_reads EIntegrity pre [] (map flen dests).
+Proof.
+  intros wk L L' st1 C Hall Hpre Hf Hd Hst Hcrc.
+  destruct (writes_good pre (w_init St Sess st0 s0)) as (sc & bytes & Hout & Hgood & Hdesc).
+  fold wk in Hout, Hgood, Hdesc. cbn [wout w_init app] in Hout.
+  rewrite Hout.
+  set (cols := cols_toks Sess cenc (wsess wk) sch f).
+  set (es := script_of st1 cols).
+  set (c := bc wk f). set (uc := length (bY wk f)).
+  set (ents := (TLen (Z.of_nat n'), length L') :: es ++ [(TCrc c, uc)]).
+  set (tinp := L' ++ C ++ bY wk f ++ Q).
+  assert (HX : bX wk f = L ++ C) by reflexivity.
+  apply (via_script st0 s0 (bytes ++ tinp) (sc ++ ents, SStop)); [|discriminate|].
+  { apply Hdesc. subst tinp ents. eapply desc_ok; [apply H_dec_enc|].
+    rewrite skipn_app_exact by reflexivity. rewrite Hst.
+    replace (C ++ bY wk f ++ Q) with (bytes_of st1 (cols ++ [TCrc c]) ++ Q).
+    2:{ rewrite bytes_of_app. cbn [bytes_of]. rewrite app_nil_r, <- app_assoc. reflexivity. }
+    replace (es ++ [(TCrc c, uc)]) with (script_of st1 (cols ++ [TCrc c]) ++ []).
+    2:{ rewrite app_nil_r, script_of_app. reflexivity. }
+    apply describes_toks. apply desc_stop. }
+  apply (reads_good Sess cenc cdec cf H_codec sch EIntegrity (ents, SStop) tinp (wsess wk)) with (s := s0) (sc := sc);
+    try assumption; try reflexivity.
+  - intros r dest Hstr Hi Hs He Hbuf Hwd Hsc.
+    apply (read_bulk_bad_crc Sess cenc cdec cf sch r n' f (length L') es c uc ([], SStop) (wsess wk) dest);
+      try assumption.
+    + subst es. apply script_of_fst.
+    + destruct Hf; assumption.
+    + rewrite Hi. subst tinp.
+      assert (Hu : used_of ((TLen (Z.of_nat n'), length L') :: es) = length (L' ++ C)).
+      { change ((TLen (Z.of_nat n'), length L') :: es) with ([(TLen (Z.of_nat n'), length L')] ++ es).
+        rewrite used_of_app, app_length. subst es C cols. rewrite script_of_used. unfold used_of. simpl. lia. }
+      rewrite Hu, app_assoc, firstn_app_exact by reflexivity.
+      subst c. unfold bc. rewrite HX. intro E. apply Hcrc. symmetry. exact E.
+  - apply Hgood.
+Qed.
+
+(* ... and they always differ when the damage is one flipped bit of the length token *)
+Theorem length_flip_bulk_reads st0 s0 pre f n' Q dests j :
+  let wk := fold_left WRITE pre (w_init St Sess st0 s0) in
+  let L := fst (enc_tok (wst wk) (TLen (Z.of_nat (flen f)))) in
+  let st1 := snd (enc_tok (wst wk) (TLen (Z.of_nat (flen f)))) in
+  let C := bytes_of st1 (cols_toks Sess cenc (wsess wk) sch f) in
+  Forall (fun k => k = KCodecBulk) sch ->
+  Forall (wf_frame sch) pre -> wf_frame sch f -> Forall (wf_frame sch) dests ->
+  snd (enc_tok (wst wk) (TLen (Z.of_nat n'))) = st1 ->
+  j < 8 * length L -> fst (enc_tok (wst wk) (TLen (Z.of_nat n'))) = flip_bit L j ->
+  READS (r_init St Sess (wout wk ++ flip_bit L j ++ C ++ bY wk f ++ Q) st0 s0) dests
+  = spec_reads EIntegrity pre [] (map flen dests).
+Proof.
+  intros wk L st1 C Hall Hpre Hf Hd Hst Hj Hflip. rewrite <- Hflip.
+  apply length_damage_bulk_reads; try assumption.
+  fold wk. fold L. fold st1. fold C. rewrite Hflip.
+  apply crc_detects_flip_then_suffix; [reflexivity|exact Hj].
+Qed.
+
 End Codec.
